@@ -1,4 +1,6 @@
 import Fdo.Proto.Handover
+import Fdo.Cbor.TypedProofs
+import Fdo.Gen.Schemas
 import Fdo.Proto.ServerProofs
 import Fdo.Facts
 import Fdo.Store
@@ -152,5 +154,20 @@ theorem replace_without_rollback_leaves_orphan :
     let s : Store := { Store.empty with vouchers := upd Store.empty.vouchers [1] (some [7]) }
     let r := replaceVoucherCutNoRollback s [1] [2] false [8] .afterInsert
     r.2 = .error ∧ r.1.vouchers [2] = some [8] ∧ r.1.vouchers [1] = some [7] := by decide
+
+/-- **The credential survives its blob encoding**: a device credential written to its CBOR blob and read
+back is the same credential (version, device info, GUID, rendezvous info, key hash), and likewise the
+voucher header the HMAC is computed over — so agreement established at handover still holds after the
+device restarts from its stored credential. -/
+theorem credential_blob_roundtrip (ok : Fdo.Cbor.CertOracle) (v : Fdo.Cbor.Val) (b : Bytes)
+    (hl : b.length < 18446744073709551616) :
+    (Fdo.Cbor.marshalS Fdo.Gen.Schemas.s_DeviceCredential v = some b →
+      Fdo.Cbor.conf ok 10000 Fdo.Cbor.maxDepth Fdo.Gen.Schemas.s_DeviceCredential v = true →
+      Fdo.Cbor.unmarshalS ok Fdo.Gen.Schemas.s_DeviceCredential b = some v) ∧
+    (Fdo.Cbor.marshalS Fdo.Gen.Schemas.s_VoucherHeader v = some b →
+      Fdo.Cbor.conf ok 10000 Fdo.Cbor.maxDepth Fdo.Gen.Schemas.s_VoucherHeader v = true →
+      Fdo.Cbor.unmarshalS ok Fdo.Gen.Schemas.s_VoucherHeader b = some v) :=
+  ⟨fun hm hc => Fdo.Cbor.unmarshalS_marshalS ok _ v b (by decide +kernel) (by decide +kernel) hm hc hl,
+   fun hm hc => Fdo.Cbor.unmarshalS_marshalS ok _ v b (by decide +kernel) (by decide +kernel) hm hc hl⟩
 
 end Fdo.Props.C03
